@@ -19,7 +19,7 @@ func init() {
 			"a missing field drops a series' memtable statistics only when it is the query's only call (four siblings agree), and a pooled statistics record that is kept across reads is a copy; NOT decided: numerical equality of the two evaluation paths, cross-generation overwrites, memtable/file merging.",
 		Assumptions: commonAssumptions,
 		Technique:   "static analysis: predicate-shape equivalence by truth table, guard dominance and else-branch checks on go/cfg, interval-predicate lattice for loop exits, who-writes tables, must-precede of accumulator reset",
-		Rules:       "C09.R1 R2 R3 R4 R5 R6 R7 R8",
+		Rules:       "C09.R1 R2 R3 R4 R5 R6 R7 R8 R9",
 	}
 }
 
@@ -323,6 +323,56 @@ func c09(c *an.Ctx) {
 		}
 		r.AddSites(n)
 		r.Floor(8, "accumulator uses in merge*PreAgg")
+	}
+	// ---------------------------------------------------------------- R9
+	{
+		// first(x)/last(x) may be answered from the column's min/max statistic when the row that holds
+		// the extreme is the first/last row in range.  The reader walks the chunk segment by segment: the
+		// range is known to cover the EDGE OF THE CURRENT SEGMENT (ctx.tr.Min <= seg.minTime()), so the
+		// time recorded with the extreme must be compared with that same segment edge.  Comparing it with
+		// the chunk's edge hands out the chunk's very first/last row for a range that starts/ends on an
+		// inner segment edge — a row outside the range.
+		const I = "engine/immutable"
+		r := c.Rule("C09.R9", "K-ARGROLE", I+":(*FirstLastReader).readFirstOrLastFromPreAgg — the time of the recorded extreme is compared with the edge of the segment whose coverage by the query range was tested")
+		if f := fn(r, I+":FirstLastReader.readFirstOrLastFromPreAgg"); f != nil && len(f.Params) < 2 {
+			r.Fail(f.Name+": signature", c.P.Pos(f.Body.Pos()), "readFirstOrLastFromPreAgg no longer receives the read context and the segment range: the statistic cannot be tied to the segment whose coverage was tested")
+		} else if f != nil {
+			rets := f.Find(an.MReturn("of a statistic (third result not the literal false)", func(g *an.Fn, rs *ast.ReturnStmt) bool {
+				return len(rs.Results) == 3 && !an.IsBoolLit(g.Info, rs.Results[2], false)
+			}))
+			r.AddSites(rets.Len())
+			if rets.Len() < 2 && !r.Failed() {
+				r.Fail(f.Name+": shape", c.P.Pos(f.Body.Pos()), "expected the first- and the last-side return of the statistic, found %d", rets.Len())
+			}
+			for _, s := range rets.List {
+				rs := s.Node.(*ast.ReturnStmt)
+				side := ""
+				ast.Inspect(rs.Results[2], func(k ast.Node) bool {
+					be, ok := k.(*ast.BinaryExpr)
+					if !ok || be.Op.String() != "==" {
+						return true
+					}
+					for _, e := range []ast.Expr{be.X, be.Y} {
+						switch f.Canon(e) {
+						case "p1.minTime()":
+							side = "min"
+						case "p1.maxTime()":
+							side = "max"
+						}
+					}
+					return true
+				})
+				one := &an.Sites{F: f, Desc: "return of the statistic", List: []an.Site{s}}
+				switch side {
+				case "min":
+					f.Guarded(r, one, "min statistic only when the range covers the segment's first row", an.AtomIs("p1.minTime()<p0.tr.Min", false))
+				case "max":
+					f.Guarded(r, one, "max statistic only when the range covers the segment's last row", an.AtomIs("p0.tr.Max<p1.maxTime()", false))
+				default:
+					r.Fail(f.Name+": edge", c.P.Pos(rs.Pos()), "the statistic is returned without comparing its recorded time with the edge (minTime()/maxTime()) of the segment range the caller passed in (%s)", f.Canon(rs.Results[2]))
+				}
+			}
+		}
 	}
 }
 
